@@ -40,11 +40,12 @@ CLAIMS = {
          "NOT covered: the bootstrap resampling and its reproducibility, date normalisation of arbitrary text; stamps are choices among concrete strings (timestamp parsing runs natively). Open known finding: the percentile interpolation leaves [a,b] by a rounding error (pinned by cmd/benchseries golden files)"),
  "C19": ("partial: everything before SQL. Bounded symbolic execution of query-word parsing, per-key term merging (denotation of the merged part at a symbolic probe value equals the conjunction of the operands), the generated subselect templates evaluated on a symbolic record, shell-style word splitting, the front end's real quoting function, and the legacy printer/reader round trip",
          "NOT covered: execution of the SQL by sqlite3/MySQL, joins, listing counts/order/limit, HTTP (cgo/network code cannot be executed symbolically); bounded by word/value lengths"),
+ "C20": ("partial: fault atomicity of the upload handler and of the database layer above database/sql, and upload-ID allocation, sequentially. Bounded symbolic execution of the real processUpload/indexFile, db.NewUpload/InsertRecord/flush/Commit/Abort, the legacy benchfmt reader and fs.MemFS with the crash point as a symbolic variable: exactly one fault at a solver-chosen numbered database operation, file creation, write offset, close, or break of the request body; afterwards no record or label of the failed upload is visible, the file being written is gone, every writer was closed, the earlier upload is intact, and a fault-free upload has every record visible once with its labels and every file stored once with the metadata header; NewUpload histories give well-formed, never reused, increasing IDs",
+         "the database is a transactional-store MODEL behind the database/sql API (effects visible exactly after a successful Commit; this package's own statements only), natively the same model sits behind a database/sql driver so that replay and translator validation run the real database/sql; the multipart body is a part list (mime/multipart's own parsing outside). NOT covered: concurrent uploads and interleaved commits, the SQL engines, HTTP, the local file store, crashes of the server process"),
 }
 
 NA_REASONS = {
  "C12": "numerical correctness of transcendental/iterative float code (Lgamma, Erfc, continued fractions, bisection, Welford): SMT-FP has no theory for the elementary functions and the available solvers time out beyond two constant-operand float operations (DESIGN.md section 5); answered not-applicable rather than switching technique",
- "C20": "all-or-nothing uploads under faults and unique upload IDs under concurrency live in database/sql + sqlite3 (cgo) transactions, a file store and an HTTP multipart stream, quantified over fault positions and goroutine interleavings: none of these can be executed symbolically here (DESIGN.md section 5)",
 }
 NA_DEFAULT = "no check registered yet: harness for this property is still under construction (see DESIGN.md section 4 for the plan)"
 
